@@ -142,6 +142,11 @@ def run(rep, rng, tier):
             payload = "e" if payload == "-" else payload
             pl_["wire"].append((uncp(topic), uncp(payload), None if rt == "-" else uncp(rt), cd))
             ev.append(f"pub:{topic}:{payload}:{rt}:{cd}:0:{retain}")
+            kind_k, path_k, _v = pl_["reqs"][k]
+            if pl_["mode"] == "seq" and kind_k == "list" and path_k in pl_["F"].internal and rng.random() < 0.5:
+                # the application asks for a dump through the API while the list answer is being streamed: refused
+                # (busy), the list must still complete
+                ev += [f"un{rng.choice([1, 2, 3])}", "dump:-"]
             if pl_["mode"] == "seq" or k in pl_["group_ends"]:
                 ev.append("un40")
         ev.append("un40")
